@@ -66,18 +66,28 @@ def build_planet(spec):
 
 ARRAYS = ('radius', 'density', 'gravity', 'bulk', 'shear')
 GUARD = 8                     # elements of guard zone on either side of every caller array
-SENTINEL = 1.2345678e77
+# no value survives being scaled and scaled back by a factor other than one: the smallest subnormal underflows to zero when
+# divided, the largest finite number overflows to inf when multiplied (a write that restores "the same" value is still seen)
+SENTINELS = (5e-324, 1.7976931348623157e308)
+
+
+def _guard_pattern(n, dtype):
+    z = np.empty(n, dtype=dtype)
+    z[0::2] = SENTINELS[0]
+    z[1::2] = SENTINELS[1]
+    return z
 
 
 def rehouse(p):
-    """Move every caller array into the middle of a larger buffer whose margins hold a sentinel.  The solver receives
+    """Move every caller array into the middle of a larger buffer whose margins hold sentinels.  The solver receives
     ordinary C-contiguous arrays (views); a write one element before the first or after the last entry lands in a margin
     and is seen after the call instead of silently corrupting somebody else's memory."""
     p['_buffers'] = {}
     for name in ARRAYS:
         a = p[name]
         buf = np.empty(a.size + 2 * GUARD, dtype=a.dtype)
-        buf[:] = SENTINEL
+        buf[:GUARD] = _guard_pattern(GUARD, a.dtype)
+        buf[GUARD + a.size:] = _guard_pattern(GUARD, a.dtype)
         buf[GUARD:GUARD + a.size] = a
         p[name] = buf[GUARD:GUARD + a.size]
         p['_buffers'][name] = buf
@@ -90,11 +100,15 @@ def guards_overwritten(p):
         if buf is None:
             continue
         n = p[name].size
+        want = _guard_pattern(GUARD, buf.dtype)
         for side, zone in (('before', buf[:GUARD]), ('after', buf[GUARD + n:])):
-            bad = np.nonzero(~(zone == SENTINEL))[0]
+            same = zone.view(np.uint64) == want.view(np.uint64)          # bit-wise
+            if zone.dtype.kind == 'c':
+                same = same.reshape(-1, 2).all(axis=1)
+            bad = np.nonzero(~same)[0]
             if bad.size:
                 out.append([name, side, int(bad[0]), repr(zone[int(bad[0])])])
-                zone[:] = SENTINEL
+                zone[:] = want
     return out
 
 
@@ -143,11 +157,18 @@ def do_solve(st, op, radial_solver):
     if mangle:
         kind = mangle['kind']
         if kind == 'short_array':
-            args[mangle['which']] = np.ascontiguousarray(args[mangle['which']][:-1])
+            args[mangle['which'] % 5] = np.ascontiguousarray(args[mangle['which'] % 5][:-1])
+        elif kind == 'short_array_tail':
+            # a shorter array that ENDS where the caller's buffer ends: if the length check is lost, the solver's loop over
+            # total_slices elements runs into the guard zone behind it
+            k = (1, 3, 8)[mangle['which'] % 3]
+            w = mangle['which'] % 5
+            if args[w].size > k + 1:
+                args[w] = args[w][k:]
         elif kind == 'wrong_dtype':
-            args[mangle['which']] = args[mangle['which']].astype(np.float32 if mangle['which'] < 4 else np.complex64)
+            args[mangle['which'] % 5] = args[mangle['which'] % 5].astype(np.float32 if mangle['which'] % 5 < 4 else np.complex64)
         elif kind == 'noncontiguous':
-            args[mangle['which']] = np.repeat(args[mangle['which']], 2)[::2]
+            args[mangle['which'] % 5] = np.repeat(args[mangle['which'] % 5], 2)[::2]
         elif kind == 'aliased_density_gravity':
             args[2] = args[1]                  # the caller hands the same array object in twice
         elif kind == 'layer_type':
